@@ -15,7 +15,7 @@ From Verif Require Import Containers.BitVecModel.
 From Verif Require Import Jit.JitSpec Jit.JitSpecProofs Jit.JitIter.
 From Verif Require Import Containers.RangeIterModel.
 From Verif Require Import Sections.SectionModel Sections.SectionProofs Sections.CopyProofs.
-From Verif Require Import Jit.JitTablesCheck Jit.JitQuery Jit.JitReuse Jit.JitComplete Jit.JitRefine.
+From Verif Require Import Jit.JitTablesCheck Jit.JitQuery Jit.JitReuse Jit.JitComplete Jit.JitRefine Jit.JitAnySize.
 From Verif Require Jit.JitIterB.
 From Verif Require Import Jit.JitLpModel Jit.JitLpProofs Jit.JitNorm.
 From VerifGen Require JitTables.
@@ -834,4 +834,49 @@ Proof.
   cbn [exact_run]. repeat split; try (vm_compute; congruence).
   - eexists _, 1, 256. split; [vm_compute; reflexivity|]. split; [vm_compute; reflexivity|]. vm_compute. auto.
   - eexists _, 1, 1. split; [vm_compute; reflexivity|]. split; [vm_compute; reflexivity|]. vm_compute. auto.
+Qed.
+
+(* ---------------------------------------------------------------- round 7: the size hypotheses of C09_alloc_frame, alloc_fresh,
+   C09_alloc_bytes_frame and C09_model_alloc_accepted discharged — every integer size (negative, huge, wrapping at 2^64), for a
+   granularity that divides 2^64 (every configuration JitAllocator can have, C09_every_configuration_ok) *)
+Theorem C09_alloc_frame_any_size : forall c st size st' id off len,
+  cfg_ok c -> (c_gran c | JitModel.two64) -> reach c st -> alloc c st size = (st', RAlloc Ok id off len) ->
+  let g := pool_gran c (size_to_pool c len) in
+  (forall x, In x (all_live (blocks st')) <-> x = (id, (off / g, len / g)) \/ In x (all_live (blocks st))) /\
+  ~ In (id, (off / g, len / g)) (all_live (blocks st)).
+Proof. exact alloc_frame_any_size. Qed.
+Print Assumptions C09_alloc_frame_any_size.
+
+(* in bytes, and judged: the live byte ranges grow by exactly the answer, and the answer passes the proven judge's alloc_ok
+   against the rounded request *)
+Theorem C09_alloc_bytes_any_size : forall c st size st' id off len,
+  cfg_ok_bytes c -> (c_gran c | JitModel.two64) -> reach c st -> alloc c st size = (st', RAlloc Ok id off len) ->
+  (forall x, In x (live_bytes c (blocks st')) <-> x = (id, (off, len)) \/ In x (live_bytes c (blocks st))) /\
+  exists b, In b (blocks st') /\ b_id b = id /\
+    alloc_ok (c_gran c) (c_pools c) (cpad c) (live_bytes c (blocks st)) (rounded c size) id off len (b_bytes b) (b_pool b) = true.
+Proof. exact alloc_bytes_any_size. Qed.
+Print Assumptions C09_alloc_bytes_any_size.
+
+(* sequence-level lifts: an exact history never leaves reach; after any exact history, an alloc of ANY size that succeeds
+   returns a non-empty byte range disjoint from every byte range handed out earlier and still live *)
+Theorem C09_exact_history_reachable : forall c, cfg_ok_bytes c -> forall ops st, reach c st -> exact_run c st ops -> reach c (run c st ops).
+Proof. exact exact_run_reach. Qed.
+Print Assumptions C09_exact_history_reachable.
+
+Theorem C09_history_alloc_disjoint : forall c ops size, cfg_ok_bytes c -> (c_gran c | JitModel.two64) -> exact_run c (init_state c) ops ->
+  forall st' id off len, alloc c (run c (init_state c) ops) size = (st', RAlloc Ok id off len) ->
+  1 <= len /\ forall y, In y (live_bytes c (blocks (run c (init_state c) ops))) -> disjoint_spans (id, (off, len)) y.
+Proof. exact history_alloc_disjoint. Qed.
+Print Assumptions C09_history_alloc_disjoint.
+
+(* non-vacuity: a request that wraps at 2^64 succeeds after a non-trivial exact history and lands behind the live spans *)
+Example C09_any_size_instance :
+  let ops := [OAlloc 100; OAlloc 64; ORelease 0 64] in
+  exact_run cfg_f (init_state cfg_f) ops /\
+  snd (alloc cfg_f (run cfg_f (init_state cfg_f) ops) (JitModel.two64 + 100)) = RAlloc Ok 0 64 128 /\
+  live_bytes cfg_f (blocks (run cfg_f (init_state cfg_f) ops)) = [(0, (192, 64))].
+Proof.
+  split; [|vm_compute; split; reflexivity].
+  cbn [exact_run]. repeat split; try (vm_compute; congruence).
+  eexists _, 1, 2. split; [vm_compute; reflexivity|]. split; [vm_compute; reflexivity|]. vm_compute. auto.
 Qed.
